@@ -29,6 +29,9 @@ REPL = [
  ("* **E2** attributes/doc comments of the item are dropped;", "* **E0** comments inside the extracted bodies are dropped (string-aware lexer), so that no anchor depends on a\n  comment and adding or editing comments never loses one.\n* **E2** attributes/doc comments of the item are dropped;"),
  ("inputs that fail on the ORIGINAL tree (F01…F37), referenced from known-findings.txt", "inputs that fail on the ORIGINAL tree (F01…F55), referenced from known-findings.txt"),
  ("`/repo` carries only `fix:` commits (F01-F37).", "`/repo` carries only `fix:` commits (F01-F55)."),
+ ("inputs that fail on the ORIGINAL tree (F01…F55), referenced from known-findings.txt", "inputs that fail on the tree BEFORE the repair named (F01…F56), referenced from known-findings.txt"),
+ ("`/repo` carries only `fix:` commits (F01-F55).", "`/repo` carries only `fix:` commits (F01-F56)."),
+ ("K01 = `compute_distance` (f64, out of\n  Verus' reach).", "K01 = `compute_distance` (f64, out of\n  Verus' reach), K02 = `WrapConfig::config_max_line_length` and K03 = `AmbiguousDiffMinusCounter::count_line` (also\n  under Verus contracts; Kani adds the counterexample that Verus cannot give)."),
 ]
 for x, y in REPL:
     if y in mid:
